@@ -13,7 +13,11 @@
 Families/flavours are those on which the pinned engine was measured to have zero failures (see DELIVERY_C12.md); the
 shapes on which the pinned engine itself violates C12 are known findings replayed exactly and excluded from the random
 generator by construction.  The finding `root-folder-rename-undetected` is FIXED (event.py): its replays are re-run on every
-run and must pass, and renames of the root folder itself are part of the random histories on all 11 flavours."""
+run and must pass, and renames of the root folder itself are part of the random histories on all 11 flavours.
+The four findings of the class "a change is written BY ID to a peer that has left the root" (KNOWN) have a proposed repair
+(fix_C12_1.diff); their replays are the probe for it: on a tree that contains it the generator is WIDE (the concurrent shapes
+around a move-out are generated), on a tree that does not they are reported as known findings (placeholder commit) or as a
+regression (real commit).  Family `folderout`: folder-level move-outs with child events in every partial-intake pattern."""
 import io
 import os
 import random
@@ -457,7 +461,7 @@ def setup_outside(rec, rich=True):
 # history generator: proposals against the current account, filtered syntactically, then executed
 
 INSIDE_KINDS = ["create", "create", "write", "write", "delete", "mkdir", "rmdir", "rename", "move", "dirrename"]
-OUTSIDE_KINDS = ["ocreate", "owrite", "odelete", "orename", "omkdir"]
+OUTSIDE_KINDS = ["ocreate", "owrite", "otouch", "odelete", "orename", "omkdir"]
 CROSS_KINDS = ["out_file", "out_file", "out_dir", "in_file", "in_file", "in_dir", "back"]
 HOLE_KINDS = ["hcreate", "hwrite", "into_hole", "from_hole"]
 ROOT_KINDS = ["root_away", "root_back", "root_back"]      # the root folder itself is renamed away / renamed back
@@ -528,6 +532,12 @@ def propose(rec, side, kinds):
         return n and ("create", [n], True, k)
     if k == "owrite" and ofiles:
         return ("write", [rng.choice(ofiles)], True, k)
+    if k == "otouch" and ofiles:
+        # the same bytes written again: an event that changes nothing (preferably for an object that used to be inside the root)
+        went = [p for (p, _home) in rec.went_out[side]]
+        cands = [f for f in ofiles if any(under(g, f, w.fold(side)) for g in went)] or ofiles
+        f = rng.choice(cands)
+        return ("write", [f], tag_of(outs[f][1]), k)
     if k == "odelete" and ofiles:
         return ("delete", [rng.choice(ofiles)], False, k)
     if k == "orename" and ofiles:
@@ -607,11 +617,19 @@ def propose(rec, side, kinds):
     return None
 
 
+# True when the tree under test contains the repair of the `peer-left-the-root` findings (probed by their exact replays at the
+# start of every run, see `run`): the random histories then include the shapes that used to be excluded on their account
+WIDE = False
+
+
 def admissible(rec, side, prop):
-    """the syntactic filter that keeps the known findings `move-out-vs-peer-edit` and `move-out-then-name-reuse` out of the
-    random histories: while an object that was moved out of the root on one side has not been synchronised, neither side touches
-    the same relative path (or a path above/below it), and an object is not moved out while the other side has an
-    unsynchronised change at such a path"""
+    """the syntactic filter of the random histories.
+    Always: nobody works inside the roots while a root folder is renamed away; the path of an orphan (peer of an object that went
+    into the declined folder) is left alone.
+    Only on a tree WITHOUT the repair of `move-out-vs-peer-edit` / `move-out-then-name-reuse` / `move-out-vs-conflict-rename`
+    (WIDE false): while an object that was moved out of the root on one side has not been synchronised, neither side touches the
+    same relative path (or a path above/below it), and an object is not moved out while the other side has an unsynchronised
+    change at such a path."""
     kind, paths, _t, label = prop
     w = rec.w
     if label == "root_back":
@@ -629,12 +647,12 @@ def admissible(rec, side, prop):
     for r in rels:
         # ... nor is the vacated path (or one above/below it) used again on the mover's own side: known finding
         # `move-out-then-name-reuse`
-        if any(related(r, m) for m in rec.moved_out[0] + rec.moved_out[1]):
+        if any(related(r, m) for m in rec.moved_out[0] + rec.moved_out[1] if not WIDE or m == "/"):
             return False
     if rels and rec.frozen[side]:
         return False
     leaving = kind == "rename" and zone(w, side, paths[0]) == "in" and zone(w, side, paths[1]) != "in"
-    if leaving:
+    if leaving and (not WIDE or label == "root_away"):
         r = rec.rel(side, paths[0])
         if any(related(r, t) for t in rec.touched[1 - side]):
             return False
@@ -663,7 +681,12 @@ def do_op(rec, side, kinds, tries=8):
         other_before = lower_tree(w.inside(1 - side))
         spelled = [rec.spell(side, p) for p in paths]
         fr, rec.freeze_request = rec.freeze_request, None
-        ok = rec.uabs(side, kind, *spelled, tag=rec.fresh() if needs_tag else None, label=label)
+        tag = None
+        if needs_tag is True:
+            tag = rec.fresh()
+        elif needs_tag is not False and needs_tag is not None:
+            tag = needs_tag                     # a rewrite of the bytes that are already there
+        ok = rec.uabs(side, kind, *spelled, tag=tag, label=label)
         if not ok:
             continue
         if fr is not None:
@@ -844,6 +867,129 @@ def fam12_mixed(rec, nops, kinds, interleave=3, mode=None):
     q = rec.quiesce()
     rec.w.fault_hook = rec.w.after_hook = None
     return q
+
+
+# ---------------------------------------------------------------------------------------------------------------
+# family `folderout`: a synchronised FOLDER (1-3 children, optionally a nested folder) is moved out of the root; events for
+# the moved children (no-op rewrite, real edit, rename, delete) are injected between the move-out and the following engine
+# steps in every partial-intake pattern; afterwards the other side works on whatever is left of the counterpart inside its
+# root (the write outside the root, if the pairing survived, only shows up then)
+
+CHILD_EVENTS = ["touch", "edit", "rename", "delete"]
+# engine steps between the move-out and the (first / second group of) child events: I = event intake of the mover's side,
+# O = intake of the other side, S = one sync step.  Every word of length <= 2 over {I, S}, and the longer ones that matter
+# (partial intake, the folder handled but punted, ...)
+INTAKE_PATTERNS = ["", "I", "S", "O", "II", "IS", "SI", "SS", "IO", "OI", "IIS", "ISI", "ISS", "SIS", "IOS", "ISIS", "IISS"]
+
+
+def folderout_specs(rng, tier, wide):
+    """the variants of one flavour: mover side, creator side, #children, nested folder, groups of (intake pattern, child events),
+    later operations of the other side.  A child event names one child or "all" of them (a tool touching a whole tree)."""
+    specs = []
+    kinds = list(CHILD_EVENTS) + (["peer_edit", "peer_delete"] if wide else [])
+    pats = INTAKE_PATTERNS if tier != "quick" else ["", "I"] + rng.sample(INTAKE_PATTERNS[2:], 1)
+    reps = 1 if tier == "quick" else 2
+    for ev in kinds:
+        for p1 in pats:
+            # the no-op rewrite before the folder is handled is the rarest event in the other families: one more of each
+            for _ in range(reps + (1 if ev == "touch" and (tier != "quick" or p1 in ("", "I")) else 0)):
+                target = rng.choice([0, 1, 2, "all", "all"])
+                groups = [(p1, [(ev, target)])]
+                if rng.random() < 0.4:
+                    groups.append((rng.choice(INTAKE_PATTERNS[:10]), [(rng.choice(kinds), rng.choice([0, 1, 2, "all"]))]))
+                if rng.random() < 0.3:
+                    groups[0][1].append((rng.choice(CHILD_EVENTS), rng.choice([0, 1, 2, "all"])))
+                specs.append({"mover": rng.randint(0, 1), "creator": rng.randint(0, 1), "kids": rng.choice([1, 1, 2, 3]),
+                              "nested": rng.random() < 0.35, "groups": groups,
+                              "later": [rng.choice(["edit", "delete", "edit"]) for _ in range(rng.randint(1, 2))]})
+    return specs
+
+
+def folderout_run(flavour, seed, salt, spec, **kw):
+    """one run of the family -> the same dict as `one_run`"""
+    rng = random.Random((seed * 1000003) ^ hash_str("c12-folderout-%s-%s" % (salt, flavour)))
+    kw.pop("mode", None)
+    w, cfg = make_world(flavour, rng, hole=False, **kw)
+    cfg["mode"] = None
+    cfg["spec"] = spec
+    rec = Rec12(w, rng)
+    hard = None
+    s, c = spec["mover"], spec["creator"]
+    step = {"I": "LR"[s], "O": "LR"[1 - s], "S": "S"}
+    try:
+        outs = outside_folders(w, s)
+        dest_parent = rng.choice(outs[:4])
+        for side in (0, 1):
+            for f in outside_folders(w, side)[:4]:
+                rec.uabs(side, "mkdir", f, label="setup")
+        root_c, root_s, root_o = w.roots[c], w.roots[s], w.roots[1 - s]
+        rec.uabs(c, "mkdir", root_c + "/d", label="setup")
+        kids = []
+        for i in range(spec["kids"]):
+            rec.uabs(c, "create", root_c + "/d/k%d" % i, tag=rec.fresh(), label="setup")
+            kids.append("/d/k%d" % i)
+        if spec["nested"]:
+            rec.uabs(c, "mkdir", root_c + "/d/n", label="setup")
+            rec.uabs(c, "create", root_c + "/d/n/k9", tag=rec.fresh(), label="setup")
+            kids.append("/d/n/k9")
+        rec.uabs(c, "create", root_c + "/keep", tag=rec.fresh(), label="setup")
+        if not rec.quiesce():
+            hard = "engine did not go quiet within the step cap while the base tree was synchronised"
+        elif lower_tree(w.inside(0)) != lower_tree(w.inside(1)):
+            hard = None           # base did not converge (C01's business): nothing to check in this run
+        else:
+            # the folder leaves the root
+            rec.uabs(s, "rename", root_s + "/d", dest_parent + "/d", label="out_dir")
+            where = {k: dest_parent + k for k in kids}          # current outside path of every moved child
+            for (pattern, events) in spec["groups"]:
+                for ch in pattern:
+                    rec.engine(step[ch])
+                for (ev, idx) in [(e, k) for (e, t) in events for k in (kids if t == "all" else [kids[t % len(kids)]])]:
+                    k = idx
+                    path = where.get(k)
+                    acc = w.account(s)
+                    if ev in ("touch", "edit", "rename", "delete") and (path is None or path not in acc):
+                        continue
+                    if ev == "touch":
+                        rec.uabs(s, "write", path, tag=tag_of(acc[path][1]), label="child_touch")
+                    elif ev == "edit":
+                        rec.uabs(s, "write", path, tag=rec.fresh(), label="child_edit")
+                    elif ev == "rename":
+                        if rec.uabs(s, "rename", path, path + "x", label="child_rename"):
+                            where[k] = path + "x"
+                    elif ev == "delete":
+                        if rec.uabs(s, "delete", path, label="child_delete"):
+                            where[k] = None
+                    elif ev in ("peer_edit", "peer_delete"):
+                        peer = root_o + k
+                        if peer in w.account(1 - s):
+                            if ev == "peer_edit":
+                                rec.uabs(1 - s, "write", peer, tag=rec.fresh(), label=ev)
+                            else:
+                                rec.uabs(1 - s, "delete", peer, label=ev)
+            peer_touched = any(ev.startswith("peer_") for (_p, evs) in spec["groups"] for (ev, _i) in evs)
+            if not rec.quiesce():
+                hard = "engine did not go quiet within the step cap after a folder was moved out of the root"
+            elif not peer_touched:
+                # moving out of the root is a deletion on the other side: nothing is left at or below /d there
+                rec.move_lines.append("mout | %s | %s" % (enc_tree(lower_tree(w.inside(1 - s))), enc_rel("/d")))
+            # later: the other side works on what is left inside its root
+            for what in ([] if hard else spec["later"]):
+                left = sorted(k for k, v in w.inside(1 - s).items() if v[0] == "f" and related("/d", k) and k != "/d")
+                target = root_o + (rng.choice(left) if left else "/keep")
+                if target not in w.account(1 - s):
+                    continue
+                if what == "edit" or not left:
+                    rec.uabs(1 - s, "write", target, tag=rec.fresh(), label="later_edit")
+                else:
+                    rec.uabs(1 - s, "delete", target, label="later_delete")
+                rec.interleave(2)
+                if not rec.quiesce():
+                    hard = "engine did not go quiet within the step cap after a later change of the other side"
+                    break
+        return {"flavour": flavour, "cfg": cfg, "family": "folderout", "rec": rec, "hard": hard, "lines": run_lines(rec)}
+    finally:
+        w.close()
 
 
 # ---------------------------------------------------------------------------------------------------------------
@@ -1045,7 +1191,12 @@ def one_run(flavour, seed, salt, family, **kw):
         if mode is None and flavour in ROOT_FLAVOURS and kw_root_ops:
             # the root folder itself renamed away and back: only in undisturbed runs (a restart would re-validate the roots)
             kinds = kinds + ROOT_KINDS * 2
-        if mode == "crash":
+        if mode == "transient" and not WIDE:
+            # a transient fault at the deletion of a moved-out folder's child makes the engine give up on the folder (C10's business)
+            # and leaves the child paired with the object outside the root: a LATER edit of the surviving counterpart is then the
+            # shape of `move-out-vs-peer-edit`.  No folder leaves the root in a run with an injected fault on a tree without the repair
+            kinds = [k for k in kinds if k != "out_dir"]
+        if mode == "crash" and not WIDE:
             # known finding move-out-crash-before-commit: no object leaves the root in a run with a simulated crash
             kinds = [k for k in kinds if k not in ("out_file", "out_dir", "into_hole")]
         if not build_base12(rec, rng.randint(1, 5)):
@@ -1144,7 +1295,32 @@ KNOWN = {
         "trace": ["U1:mkdir:/sync/REMOTE", "U1:mkdir:/sync/REMOTE/od", "U1:mkdir:/sync/remote/a"] + list("LSRSSSSSL") +
                  ["U1:rename:/sync/remote/a,/sync/REMOTE/od/a", "F:crash:1"] + list("RS" * 6),
         "expect": ("outside-root", "delete", "delete_synced")},
+    # (vi) a file is edited and then moved out of the root on one side while the other side edits its peer: both sides carry a
+    #     hash change, handle_hash_conflict -> resolve_conflict -> conflict_rename renames the file OUTSIDE the root to
+    #     <name>.conflicted (manager.py conflict_rename: providers[side].rename(oinfo.oid, conflict_path), path = the moved path)
+    "move-out-vs-conflict-rename": {
+        "flavour": "oid-oid", "cfg": {},
+        "trace": ["U0:mkdir:/zone", "U1:mkdir:/zone", "U0:create:/local/f:1"] + PRESYNC +
+                 ["U0:write:/local/f:2", "U0:rename:/local/f,/zone/f", "U1:write:/remote/f:3"] + RR,
+        "expect": ("outside-root", "rename", "conflict_rename")},
 }
+# All four are instances of one defect: a change is propagated BY ID to a peer that has meanwhile left the sync root.  Repair:
+# fix_C12_1.diff (SyncManager.sync splits such an entry before anything is written).  The replays double as the PROBE that tells
+# whether the tree under test contains the repair (see WIDE).
+PEER_LEFT_IDS = list(KNOWN)
+REPAIR_NOTE = {i: "fix_C12_1.diff" for i in PEER_LEFT_IDS}
+
+
+def listed_commits(pid=PID):
+    """{finding id: commit field} of the `fixed:` lines of known_findings.txt ('<SHA>' = repair proposed, not committed yet)"""
+    out = {}
+    path = os.path.join(VERIF, "known_findings.txt")
+    if os.path.exists(path):
+        for line in open(path, encoding="utf8"):
+            m = re.match(r"fixed: property=%s\s+commit=(\S+)\s+id=(\S+)" % pid, line.strip())
+            if m:
+                out[m.group(2)] = m.group(1)
+    return out
 
 
 # fixed findings: the exact replays are re-run on every run and must now pass
@@ -1310,20 +1486,44 @@ def run(res, tier, seed, proof_broken, replay):
     if replay:
         return run_replay(res, replay)
     # 2. known findings
+    global WIDE
+    commits = listed_commits()
+    reproduces = {}
     for ident in KNOWN:
+        hit, hits = replay_known(ident)
+        reproduces[ident] = (hit, hits)
+    # the wide generator (shapes formerly excluded on account of these findings) is used iff none of their replays reproduces
+    WIDE = not any(h or hs for (h, hs) in reproduces.values())
+    res.coverage["peer_left_root_repair_present"] = WIDE
+    for ident, (hit, hits) in reproduces.items():
         if ident in opens:
-            hit, hits = replay_known(ident)
             if hit:
                 res.known.append("%s :: %s" % (ident, opens[ident]))
             else:
                 res.notes.append("known finding %s no longer reproduces (stale): monitor says %r" % (ident, hits))
+        elif ident in fixed:
+            if hit or hits:
+                if commits.get(ident) == "<SHA>":
+                    # the repair is proposed (placeholder commit) but not in the tree under test: still a known finding
+                    res.known.append("%s :: %s [repair proposed in %s, not in the tree under test]" % (ident, fixed[ident], REPAIR_NOTE[ident]))
+                else:
+                    k = KNOWN[ident]
+                    res.violation({"property": PID, "kind": "regression of fixed finding", "id": ident, "flavour": k["flavour"],
+                                   "cfg": k["cfg"], "trace": k["trace"], "monitor_rejects": [list(map(str, h)) for h in hits]})
+        elif hit:
+            k = KNOWN[ident]
+            res.violation({"property": PID, "kind": "unlisted finding reproduces", "id": ident, "flavour": k["flavour"], "cfg": k["cfg"],
+                           "trace": k["trace"], "monitor_rejects": [list(map(str, h)) for h in hits]})
     for ident, replays in FIXED.items():
         if ident in fixed:
             for (fl, cfg, trace, side) in replays:
                 bad = replay_fixed_root(fl, cfg, trace, side)
                 if bad:
-                    bad.update({"property": PID, "kind": "regression of fixed finding", "id": ident})
-                    res.violation(bad)
+                    if commits.get(ident) == "<SHA>":
+                        res.known.append("%s :: %s [repair proposed, not in the tree under test]" % (ident, fixed[ident]))
+                    else:
+                        bad.update({"property": PID, "kind": "regression of fixed finding", "id": ident})
+                        res.violation(bad)
                     break
         elif ident in opens:
             # still listed as open (tree without the repair): same replay, reported as a known finding while it reproduces
@@ -1373,6 +1573,23 @@ def run(res, tier, seed, proof_broken, replay):
         for ln, what in r["lines"]:
             lines.append(ln)
             owners.append((r, what))
+    # family `folderout`: folder-level move-outs with child events in every partial-intake pattern, then later work of the other side
+    for fl in FL_ALL:
+        frng = random.Random((seed * 1000003) ^ hash_str("c12-fo-specs-" + fl))
+        for j, spec in enumerate(folderout_specs(frng, tier, WIDE)):
+            r = folderout_run(fl, seed, "%d" % j, spec)
+            runs.append(r)
+            hist["family"]["folderout"] = hist["family"].get("folderout", 0) + 1
+            hist["flavour"][fl] = hist["flavour"].get(fl, 0) + 1
+            for k, v in r["rec"].op_hist.items():
+                hist["ops"][k] = hist["ops"].get(k, 0) + v
+            for (_pat, evs) in spec["groups"]:
+                hist.setdefault("folderout_patterns", {})[_pat or "-"] = hist.setdefault("folderout_patterns", {}).get(_pat or "-", 0) + 1
+            if r["hard"]:
+                hard.append(summary12(r, {"failure": r["hard"]}))
+            for ln, what in r["lines"]:
+                lines.append(ln)
+                owners.append((r, what))
     vs = run_driver(LAYER, lines) if lines else []
     rejects = [(v, o) for v, o in zip(vs, owners) if v != "ok"]
     nsub, sbad = sub_differential(runs, rng_for(seed, "c12sub"))
@@ -1386,7 +1603,10 @@ def run(res, tier, seed, proof_broken, replay):
                 "operations on both sides drawn against the current accounts: inside the roots, outside them, and moves across the boundary "
                 "in both directions (files and folders, out and back), the ROOT FOLDER itself renamed away and back (undisturbed runs), with a declining translate (<root>/priv) in ~30% of the runs, roots "
                 "by id in ~40%, nested roots in ~50%; family `settled`: quiescence after every operation (+ move-out=deletion / move-in="
-                "creation verdicts); family `mixed`: 0-3 engine steps between operations.  Monitor lines per run: calls per side, outside "
+                "creation verdicts); family `mixed`: 0-3 engine steps between operations; family `folderout`: a synchronised folder with 1-3 "
+                "children (optionally a nested folder) is moved out of the root, child events (same-bytes rewrite, edit, rename, delete; one "
+                "child or all) are injected after 0-4 engine steps in every intake pattern, quiescence (+ move-out=deletion verdict), then the "
+                "other side edits/deletes what is left of the counterpart.  Monitor lines per run: calls per side, outside "
                 "snapshots around every engine step per side, alien points, boundary moves.  non-trivial = the engine issued at least one "
                 "mutating call; distinct by (flavour, operations)",
         "samples": [{"monitor_line": lines[0][:400] if lines else None, "run": summary12(runs[0]) if runs else None}],
@@ -1397,8 +1617,8 @@ def run(res, tier, seed, proof_broken, replay):
     })
     res.assumptions += ["step-atomic engine semantics: user operations interleave between, not inside, engine steps",
                         "harness determinisation (sequential ids, virtual clock, insertion-ordered sets) selects one admissible behaviour of the real program",
-                        "the random histories exclude, by a syntactic filter (`admissible`), the shapes of the listed known findings; "
-                        "those are replayed exactly instead",
+                        "the random histories exclude, by a syntactic filter (`admissible`), the shapes of the listed known findings that are "
+                        "not repaired in the tree under test (probed by their exact replays); those are replayed exactly instead",
                         "MockProvider is the provider; `mkdirs`/`rmtree` decompose into the traced `mkdir`/`delete`",
                         "the write-site extractor is syntactic (tools/gen_write_sites.py); dynamic dispatch it cannot see is covered only by the trace monitor"]
     for v, (r, what) in rejects[:3]:
